@@ -7,7 +7,7 @@ package collection
 //@ spec ticksUntil(p int, t int, n int) int = wrap(p - t - 1, n) + 1
 
 //@ func (*TimingWheel).getPositionAndCircle
-//@   prop C10
+//@   prop C10, C17
 //@   requires w.numSlots >= 1 && 0 <= w.tickedPos && w.tickedPos < w.numSlots
 //@   requires w.interval > 0 && d >= w.interval
 //@   ensures [range] 0 <= pos && pos < w.numSlots && circle >= 0
@@ -58,7 +58,7 @@ package collection
 //@   | && len(w.slots) == w.numSlots && w.timers != nil
 
 //@ func (*TimingWheel).moveTask
-//@   prop C10
+//@   prop C10, C17
 //@   requires twOK(w) && twTimersOK(w)
 //@   let found = ret(Get, 1, 1)
 //@   let timer = unbox(ret(Get, 0, 1), ptr(positionEntry))
@@ -81,7 +81,7 @@ package collection
 //   diff > 0           -> moved to slot (tickedPos+diff) mod N with diff cleared, index updated
 //   otherwise          -> fires: handed to runTasks with its key/value, removed from slot and index
 //@ func (*TimingWheel).scanAndRunTasks
-//@   prop C10
+//@   prop C10, C17
 //@   opaque runTasks, setTimerPosition
 //@   requires twOK(w) && l != nil
 //@   let e0 = at_head(e)
@@ -102,7 +102,7 @@ package collection
 
 // A tick advances the wheel by one slot and scans exactly that slot.
 //@ func (*TimingWheel).onTick
-//@   prop C10
+//@   prop C10, C17
 //@   opaque scanAndRunTasks
 //@   requires twOK(w)
 //@   ensures [advance] w.tickedPos == wrap(old(w.tickedPos) + 1, w.numSlots) && w.numSlots == old(w.numSlots)
@@ -111,7 +111,7 @@ package collection
 // setTask: a new key is placed floor(delay/I) ticks ahead (delays below I count as I); an existing key gets
 // the new value and is re-scheduled through moveTask with the (clamped) delay.
 //@ func (*TimingWheel).setTask
-//@   prop C10
+//@   prop C10, C17
 //@   opaque moveTask, setTimerPosition
 //@   requires twOK(w) && twTimersOK(w) && task != nil
 //@   let found = ret(Get, 1, 1)
@@ -127,7 +127,7 @@ package collection
 
 // removeTask: tombstone the live entry and drop it from the index; nothing happens for an unknown key.
 //@ func (*TimingWheel).removeTask
-//@   prop C10
+//@   prop C10, C17
 //@   requires twOK(w) && twTimersOK(w)
 //@   let found = ret(Get, 1, 1)
 //@   let posEntry = unbox(ret(Get, 0, 1), ptr(positionEntry))
@@ -202,3 +202,76 @@ package collection
 //@   ensures [no-boundary-no-change] now >= old(rw.lastTime) && sp == 0 ==> rw.lastTime == old(rw.lastTime) && rw.offset == old(rw.offset)
 //@   ensures [shape] rw.size == old(rw.size) && rw.win == old(rw.win) && rw.interval == old(rw.interval) && rw.win.buckets == old(rw.win.buckets)
 //@   modifies rw.offset, rw.lastTime, Bucket.Sum, Bucket.Count
+
+// ---------------- Cache (in-memory LRU) ----------------
+
+// SetWithExpire: stores the value, touches the LRU, and (re)arms the expiry timer with a jittered delay:
+// a new key is set, an existing one is moved (so it is re-scheduled from now).
+//@ func (*Cache).SetWithExpire
+//@   prop C17
+//@   opaque AroundDuration, MoveTimer, SetTimer
+//@   requires c != nil && c.data != nil
+//@   ensures [stored] has(c.data, key) && c.data[key] == value
+//@   ensures [touched] calls(c.lruCache.add, key) == 1
+//@   ensures [timer-new] !old(has(c.data, key)) ==> calls(c.timingWheel.SetTimer) == 1 && calls(MoveTimer) == 0 && unbox(arg(SetTimer, 1), string) == key && arg(SetTimer, 2) == value && arg(SetTimer, 3) == ret(AroundDuration)
+//@   ensures [timer-existing] old(has(c.data, key)) ==> calls(c.timingWheel.MoveTimer) == 1 && calls(SetTimer) == 0 && unbox(arg(MoveTimer, 1), string) == key && arg(MoveTimer, 2) == ret(AroundDuration)
+//@   ensures [jitter-of-expire] calls(AroundDuration) == 1 && arg(AroundDuration, 1) == expire
+//@   ensures [others-kept] forallk(s, string, s != key ==> has(c.data, s) == old(has(c.data, s)))
+
+//@ func (*Cache).Del
+//@   prop C17
+//@   opaque RemoveTimer
+//@   requires c != nil && c.data != nil
+//@   ensures [gone] !has(c.data, key) && calls(c.lruCache.remove, key) == 1 && calls(c.timingWheel.RemoveTimer) == 1 && unbox(arg(RemoveTimer, 1), string) == key
+
+//@ func (*Cache).doGet
+//@   prop C17
+//@   requires c != nil && c.data != nil
+//@   ensures [reads-store] result1 == has(c.data, key) && (result1 ==> result0 == c.data[key])
+//@   ensures [touch-on-hit] result1 ==> calls(c.lruCache.add, key) == 1
+//@   ensures [miss-no-touch] !result1 ==> calls(add) == 0
+
+// The body of Take that runs inside the single-flight barrier: re-check the cache, otherwise fetch once and
+// cache only on success.
+//@ func (*Cache).Take$1
+//@   prop C17
+//@   opaque Set
+//@   requires c != nil && c.data != nil
+//@   ensures [hit-no-fetch] ret(c.doGet, 1) ==> calls(fetch) == 0 && result0 == ret(c.doGet, 0) && result1 == nil && calls(Set) == 0
+//@   ensures [miss-fetch-once] !ret(c.doGet, 1) ==> calls(fetch) == 1
+//@   ensures [cache-only-on-success] !ret(c.doGet, 1) && ret(fetch, 1) != nil ==> calls(Set) == 0 && result1 == ret(fetch, 1) && result0 == nil
+//@   ensures [cache-on-success] !ret(c.doGet, 1) && ret(fetch, 1) == nil ==> calls(c.Set, key, ret(fetch, 0)) == 1 && result0 == ret(fetch, 0) && result1 == nil
+//@   ensures [double-check] calls(c.doGet, key) == 1
+
+//@ func (*Cache).Take
+//@   prop C17
+//@   requires c != nil && c.data != nil
+//@   fold Do: true
+//@   ensures [hit] ret(c.doGet, 1, 1) ==> calls(Do) == 0 && result0 == ret(c.doGet, 0, 1) && result1 == nil
+//@   ensures [miss-through-barrier] !ret(c.doGet, 1, 1) ==> calls(c.barrier.Do) == 1 && arg(c.barrier.Do, 0) == key
+//@   ensures [barrier-error] !ret(c.doGet, 1, 1) && ret(Do, 1) != nil ==> result0 == nil && result1 == ret(Do, 1)
+//@   ensures [barrier-value] !ret(c.doGet, 1, 1) && ret(Do, 1) == nil ==> result0 == ret(Do, 0) && result1 == nil
+
+// LRU: a known key is moved to the front; a new key is pushed to the front and, past the limit, the back
+// (least recently used) element is evicted, removed from the index and reported through onEvict.
+//@ func (keyLru).add
+//@   prop C17
+//@   opaque removeOldest
+//@   requires k.elements != nil
+//@   ensures [known-moves-front] old(has(k.elements, key)) ==> calls(k.evicts.MoveToFront, old(k.elements[key])) == 1 && calls(PushFront) == 0 && calls(removeOldest) == 0
+//@   ensures [new-pushed-front] !old(has(k.elements, key)) ==> calls(k.evicts.PushFront) == 1 && unbox(arg(PushFront, 1), string) == key && has(k.elements, key) && k.elements[key] == ret(PushFront)
+//@   ensures [evict-past-limit] !old(has(k.elements, key)) ==> (calls(removeOldest) == 1) == (ret(Len) > k.limit)
+//@ func (keyLru).removeOldest
+//@   prop C17
+//@   opaque removeElement
+//@   ensures [back-is-victim] ret(Back) != nil ==> calls(k.removeElement, ret(Back)) == 1
+//@   ensures [empty] ret(Back) == nil ==> calls(removeElement) == 0
+//@ func (keyLru).removeElement
+//@   prop C17
+//@   requires k.elements != nil && elem != nil
+//@   ensures [unlinked] calls(k.evicts.Remove, elem) == 1 && calls(onEvict) == 1 && !has(k.elements, unbox(old(elem.Value), string)) && unbox(arg(onEvict, 0), string) == unbox(old(elem.Value), string)
+//@ func (*Cache).onEvict
+//@   prop C17
+//@   opaque RemoveTimer
+//@   requires c != nil && c.data != nil
+//@   ensures [dropped] !has(c.data, key) && calls(c.timingWheel.RemoveTimer) == 1
